@@ -6,6 +6,9 @@ From MS Require Import Proofs.Tactics L2 Spec.View.
 Definition strip {A B C : Type} (r : res (A * B * C)) : res (A * B) :=
   match r with Ok (a, b, _) => Ok (a, b) | Panic s => Panic s end.
 
+Lemma ok_pair_inj {A B : Type} (a c : A) (b d : B) : @Ok (A * B) (a, b) = Ok (c, d) -> a = c /\ b = d.
+Proof. intros H. inversion H. split; reflexivity. Qed.
+
 Definition base_ci (f : bytes) : cinfo := ci_set_mac ci_empty (slice 6 6 f) (slice 0 6 f).
 
 Definition l3_ci (f : bytes) (v : l4view) : cinfo :=
